@@ -413,7 +413,13 @@ class Normalizer:
 
     def find_site(self, s, fctx):
         for e in self.header_exprs(s):
-            calls = [n for n in ast.walk(e) if isinstance(n, ast.Call)]
+            inner_scope = set()
+            for n in ast.walk(e):
+                if isinstance(n, (ast.ListComp, ast.SetComp, ast.DictComp, ast.GeneratorExp, ast.Lambda)):
+                    for x in ast.walk(n):
+                        if x is not n:
+                            inner_scope.add(id(x))
+            calls = [n for n in ast.walk(e) if isinstance(n, ast.Call) and id(n) not in inner_scope]
             calls.sort(key=lambda c: (getattr(c, "end_lineno", 0), getattr(c, "end_col_offset", 0)))
             for c in calls:
                 r = self.resolve(c, fctx["mod"], fctx["cls"], fctx["self"])
@@ -446,6 +452,20 @@ class Normalizer:
             c, hq, hnode, first = site
             if fctx["budget"] <= 0:
                 break
+            if isinstance(s, ast.If) and isinstance(s.test, ast.BoolOp) and isinstance(s.test.op, ast.And) and not s.orelse:
+                # the call sits in a later operand of `a and b`: split into nested ifs first, so that hoisting the helper's
+                # statements keeps the short-circuit (they run only when the earlier operands were true)
+                k = next((i for i, v in enumerate(s.test.values) if any(n is c for n in ast.walk(v))), 0)
+                body0 = [x for x in _strip_doc(hnode.body)]
+                multi = not (len(body0) == 1 and isinstance(body0[0], ast.Return))
+                if k > 0 and multi:
+                    outer = s.test.values[:k]
+                    inner = s.test.values[k:]
+                    it_ = inner[0] if len(inner) == 1 else ast.copy_location(ast.BoolOp(op=ast.And(), values=inner), s.test)
+                    ot_ = outer[0] if len(outer) == 1 else ast.copy_location(ast.BoolOp(op=ast.And(), values=outer), s.test)
+                    inner_if = ast.copy_location(ast.If(test=it_, body=s.body, orelse=[]), s)
+                    s.test, s.body = ot_, self.rewrite_block([inner_if], fctx)
+                    continue
             try:
                 keep = None
                 if isinstance(s, ast.Assign) and s.value is c and len(s.targets) == 1 and isinstance(s.targets[0], ast.Name):
@@ -631,6 +651,13 @@ def apply(repo):
     # new helpers first get their own bodies normalised lazily through the recursion (stack-bounded);
     # iterate to a fixpoint over a bounded number of rounds so that helpers calling helpers are expanded.
     mconst_cache = {}
+    nz.spelling_changes = 0
+    if os.environ.get("BSA_ALIAS", "1") != "0":
+        seen0 = set()
+        for fi in list(repo.funcs.values()):
+            if id(fi.node) not in seen0:
+                seen0.add(id(fi.node))
+                nz.spelling_changes += spelling(fi.node)     # comprehensions become loops before helpers are inlined into them
     for fi in list(repo.funcs.values()):
         mod, cls = fi.mod, fi.cls
         try:
@@ -681,7 +708,6 @@ def apply(repo):
                 pass
         nz.dropped.append(hq)
     nz.alias_subst = 0
-    nz.spelling_changes = 0
     if os.environ.get("BSA_ALIAS", "1") != "0":
         seen = set()
         for fi in repo.funcs.values():
@@ -894,6 +920,13 @@ def _chain_text(e):
     return None
 
 
+def _is_pure_isinstance(e):
+    """isinstance(<name or attribute chain>, <class name(s)>): a pure test (no user code runs for the classes used here)"""
+    return isinstance(e, ast.Call) and isinstance(e.func, ast.Name) and e.func.id == "isinstance" and len(e.args) == 2 \
+        and not e.keywords and _chain_text(e.args[0]) is not None and (
+            _chain_text(e.args[1]) is not None or (isinstance(e.args[1], ast.Tuple) and all(_chain_text(x) is not None for x in e.args[1].elts)))
+
+
 def propagate_aliases(fn):
     params = {a.arg for a in fn.args.posonlyargs + fn.args.args + fn.args.kwonlyargs}
     if fn.args.vararg:
@@ -922,6 +955,15 @@ def propagate_aliases(fn):
                     and (isinstance(s.value, ast.Constant) and type(s.value.value) in (int, bytes, str)
                          or isinstance(s.value, ast.Tuple) and 1 <= len(s.value.elts) <= 8 and all(
                              isinstance(e, ast.Constant) or (isinstance(e, ast.Name) and stores.get(e.id, 0) == 0 and e.id not in params)
+                             or (isinstance(e, ast.Tuple) and 1 <= len(e.elts) <= 4 and all(
+                                 isinstance(z, ast.Constant) or (isinstance(z, ast.Name) and stores.get(z.id, 0) == 0 and z.id not in params)
+                                 or (isinstance(z, ast.Attribute) and _chain_text(z) is not None and stores.get(_chain_text(z).split(".")[0], 0) == 0
+                                     and not any(_chain_text(z) == a_ or a_.startswith(_chain_text(z) + ".") for a_ in attr_stores))
+                                 for z in e.elts))
+                             or (isinstance(e, ast.Attribute) and _chain_text(e) is not None
+                                 and stores.get(_chain_text(e).split(".")[0], 0) == 0
+                                 and not any(_chain_text(e) == a or a.startswith(_chain_text(e) + ".") or _chain_text(e).startswith(a + ".")
+                                             for a in attr_stores))
                              for e in s.value.elts)) \
                     and stores.get(s.targets[0].id) == 1 and s.targets[0].id not in params:
                 # a local bound once to a literal stands for the literal
@@ -932,10 +974,11 @@ def propagate_aliases(fn):
                 if uses_all and uses_later == uses_all:
                     cands[name] = (s.value, later)
             elif isinstance(s, ast.Assign) and len(s.targets) == 1 and isinstance(s.targets[0], ast.Name) \
-                    and isinstance(s.value, (ast.Compare, ast.BoolOp, ast.UnaryOp)) and stores.get(s.targets[0].id) == 1 \
-                    and s.targets[0].id not in params \
-                    and not _has(s.value, (ast.Call, ast.Lambda, ast.ListComp, ast.SetComp, ast.DictComp, ast.GeneratorExp,
-                                           ast.NamedExpr, ast.Await, ast.Yield, ast.YieldFrom, ast.Subscript)):
+                    and (isinstance(s.value, (ast.Compare, ast.BoolOp, ast.UnaryOp)) or _is_pure_isinstance(s.value)) \
+                    and stores.get(s.targets[0].id) == 1 and s.targets[0].id not in params \
+                    and not _has(s.value, (ast.Lambda, ast.ListComp, ast.SetComp, ast.DictComp, ast.GeneratorExp,
+                                           ast.NamedExpr, ast.Await, ast.Yield, ast.YieldFrom, ast.Subscript)) \
+                    and all(_is_pure_isinstance(c_) for c_ in ast.walk(s.value) if isinstance(c_, ast.Call)):
                 # P7: a boolean local over names/attribute chains that the function never stores
                 name = s.targets[0].id
                 free_ok = True
@@ -961,7 +1004,14 @@ def propagate_aliases(fn):
                     root = chain.split(".")[0]
                     parts = chain.split(".")
                     prefixes = {".".join(parts[:k]) for k in range(2, len(parts) + 1)}
-                    if stores.get(root, 0) == 0 and not (prefixes & attr_stores) and root != name:
+                    root_ok = stores.get(root, 0) == 0
+                    if not root_ok:
+                        # every binding of the root is the target of a for-loop that encloses this statement: within one
+                        # iteration the root is fixed
+                        loops_ = [lp for lp in ast.walk(fn) if isinstance(lp, ast.For) and any(x is s for x in ast.walk(lp))]
+                        tgt_stores = sum(1 for lp in loops_ for x in ast.walk(lp.target) if isinstance(x, ast.Name) and x.id == root)
+                        root_ok = tgt_stores == stores.get(root, 0) and tgt_stores > 0
+                    if root_ok and not (prefixes & attr_stores) and root != name:
                         # every use must be in this block after i (or nested inside later statements)
                         later = stmts[i + 1:]
                         uses_later = sum(1 for t in later for n in ast.walk(t) if isinstance(n, ast.Name) and n.id == name and isinstance(n.ctx, ast.Load))
@@ -1090,6 +1140,48 @@ class Spelling(ast.NodeTransformer):
         return n
 
     # statements
+    def sink_selected(self, out):
+        """[..., If-chain assigning v = simple_i in every branch, S(v)] with v used nowhere else in S's block -> S moves into the
+        branches with v replaced (tail duplication of one statement)."""
+        i = 0
+        while i + 1 < len(out):
+            c, nxt = out[i], out[i + 1]
+            if isinstance(c, ast.If) and isinstance(nxt, (ast.Expr, ast.Assign, ast.Return)):
+                branches, cur, v = [], c, None
+                ok = True
+                while True:
+                    if len(cur.body) == 1 and isinstance(cur.body[0], ast.Assign) and len(cur.body[0].targets) == 1 \
+                            and isinstance(cur.body[0].targets[0], ast.Name) and isinstance(cur.body[0].value, _SIMPLE_ELT):
+                        name = cur.body[0].targets[0].id
+                        if v is None:
+                            v = name
+                        ok = ok and name == v
+                        branches.append(cur.body)
+                    else:
+                        ok = False
+                    if len(cur.orelse) == 1 and isinstance(cur.orelse[0], ast.If):
+                        cur = cur.orelse[0]
+                        continue
+                    if len(cur.orelse) == 1 and isinstance(cur.orelse[0], ast.Assign) and len(cur.orelse[0].targets) == 1 \
+                            and isinstance(cur.orelse[0].targets[0], ast.Name) and cur.orelse[0].targets[0].id == v \
+                            and isinstance(cur.orelse[0].value, _SIMPLE_ELT):
+                        branches.append(cur.orelse)
+                    else:
+                        ok = False
+                    break
+                uses_next = sum(1 for n in ast.walk(nxt) if isinstance(n, ast.Name) and n.id == v and isinstance(n.ctx, ast.Load)) if v else 0
+                uses_rest = sum(1 for t in out[i + 2:] for n in ast.walk(t) if isinstance(n, ast.Name) and n.id == v) if v else 1
+                if ok and v and uses_next >= 1 and uses_rest == 0 and not any(
+                        isinstance(n, ast.Name) and n.id == v and isinstance(n.ctx, ast.Store) for n in ast.walk(nxt)):
+                    for b in branches:
+                        val = b[0].value
+                        b[0] = ast.fix_missing_locations(_Rename(v, val).visit(copy.deepcopy(nxt)))
+                    del out[i + 1]
+                    self.changes += 1
+                    continue
+            i += 1
+        return out
+
     def block(self, stmts):
         out = []
         for s in stmts:
@@ -1102,7 +1194,7 @@ class Spelling(ast.NodeTransformer):
                 for h in s.handlers:
                     h.body = self.block(h.body)
             out.extend(self.stmt(s))
-        return out
+        return self.sink_selected(out)
 
     def stmt(self, s):
         # U2 setattr
@@ -1136,6 +1228,80 @@ class Spelling(ast.NodeTransformer):
                 loop = ast.For(target=g.target, iter=g.iter, body=body, orelse=[], lineno=s.lineno)
                 self.changes += 1
                 return [ast.fix_missing_locations(ast.copy_location(loop, s))]
+        # U8 summing comprehension: x = c + sum(E for v in it [if g])  ->  x = c; for v in it: [if g:] x += E
+        if isinstance(s, ast.Assign) and len(s.targets) == 1 and isinstance(s.targets[0], ast.Name):
+            v_ = s.value
+            base, call = None, None
+            if isinstance(v_, ast.BinOp) and isinstance(v_.op, ast.Add) and isinstance(v_.right, ast.Call):
+                base, call = v_.left, v_.right
+            elif isinstance(v_, ast.Call):
+                base, call = ast.Constant(value=0), v_
+            if call is not None and isinstance(call.func, ast.Name) and call.func.id == "sum" and len(call.args) == 1 and not call.keywords \
+                    and isinstance(call.args[0], (ast.GeneratorExp, ast.ListComp)) and len(call.args[0].generators) == 1 \
+                    and not _has(base, ast.Call) and not (isinstance(call.args[0].elt, ast.Constant) and call.args[0].elt.value == 1 and False):
+                g = call.args[0].generators[0]
+                if not g.is_async and isinstance(g.target, (ast.Name, ast.Tuple)):
+                    tgt = s.targets[0]
+                    body = [ast.AugAssign(target=ast.Name(id=tgt.id, ctx=ast.Store()), op=ast.Add(), value=call.args[0].elt)]
+                    for c_ in reversed(g.ifs):
+                        body = [ast.If(test=c_, body=body, orelse=[])]
+                    init = ast.Assign(targets=[ast.Name(id=tgt.id, ctx=ast.Store())], value=base, lineno=s.lineno)
+                    loop = ast.For(target=g.target, iter=g.iter, body=body, orelse=[], lineno=s.lineno)
+                    self.changes += 1
+                    return [ast.fix_missing_locations(ast.copy_location(init, s)), ast.fix_missing_locations(ast.copy_location(loop, s))]
+        # U9 collecting comprehension: x = [E for v in it [if g]]  ->  x = []; for v in it: [if g:] x.append(E)
+        # (also `return [E for ..]` through a fresh name); only when E contains a call - a pure projection is left as a term
+        comp, tgt_name, is_ret = None, None, False
+        if isinstance(s, ast.Assign) and len(s.targets) == 1 and isinstance(s.targets[0], ast.Name) and isinstance(s.value, ast.ListComp):
+            comp, tgt_name = s.value, s.targets[0].id
+        elif isinstance(s, ast.Return) and isinstance(s.value, ast.ListComp):
+            comp, tgt_name, is_ret = s.value, "__collected", True
+        if comp is not None and len(comp.generators) == 1 and not comp.generators[0].is_async and _has(comp.elt, ast.Call) \
+                and isinstance(comp.generators[0].target, (ast.Name, ast.Tuple)) \
+                and not any(isinstance(n, ast.Name) and n.id == tgt_name for n in ast.walk(comp)):
+            g = comp.generators[0]
+            app = ast.Expr(value=ast.Call(func=ast.Attribute(value=ast.Name(id=tgt_name, ctx=ast.Load()), attr="append", ctx=ast.Load()),
+                                          args=[comp.elt], keywords=[]))
+            body = [app]
+            for c_ in reversed(g.ifs):
+                body = [ast.If(test=c_, body=body, orelse=[])]
+            init = ast.Assign(targets=[ast.Name(id=tgt_name, ctx=ast.Store())], value=ast.List(elts=[], ctx=ast.Load()), lineno=s.lineno)
+            loop = ast.For(target=g.target, iter=g.iter, body=body, orelse=[], lineno=s.lineno)
+            out = [init, loop]
+            if is_ret:
+                out.append(ast.Return(value=ast.Name(id=tgt_name, ctx=ast.Load())))
+            self.changes += 1
+            return [ast.fix_missing_locations(ast.copy_location(x, s)) for x in out]
+        # U10 first match in a literal table: x = next((E for a[, b] in ((..), ..) if C), D)  ->  if C1: x = E1 elif ... else: x = D
+        if isinstance(s, ast.Assign) and len(s.targets) == 1 and isinstance(s.targets[0], ast.Name) and isinstance(s.value, ast.Call) \
+                and isinstance(s.value.func, ast.Name) and s.value.func.id == "next" and len(s.value.args) == 2 and not s.value.keywords \
+                and isinstance(s.value.args[0], ast.GeneratorExp) and len(s.value.args[0].generators) == 1:
+            ge = s.value.args[0]
+            g = ge.generators[0]
+            if not g.is_async and isinstance(g.iter, (ast.Tuple, ast.List)) and 1 <= len(g.iter.elts) <= 10 and len(g.ifs) >= 1:
+                names = [g.target.id] if isinstance(g.target, ast.Name) else \
+                    [t.id for t in g.target.elts] if isinstance(g.target, ast.Tuple) and all(isinstance(t, ast.Name) for t in g.target.elts) else None
+                rows = []
+                for e in g.iter.elts:
+                    vals = [e] if isinstance(g.target, ast.Name) else list(e.elts) if isinstance(e, ast.Tuple) else None
+                    if names is None or vals is None or len(vals) != len(names) or not all(isinstance(v, _SIMPLE_ELT) for v in vals):
+                        rows = None
+                        break
+                    rows.append(vals)
+                if rows:
+                    def inst(expr, vals):
+                        x = copy.deepcopy(expr)
+                        for nm, v in zip(names, vals):
+                            x = _Rename(nm, v).visit(x)
+                        return x
+                    chain = [ast.Assign(targets=[copy.deepcopy(s.targets[0])], value=s.value.args[1], lineno=s.lineno)]
+                    for vals in reversed(rows):
+                        tests = [inst(c_, vals) for c_ in g.ifs]
+                        test = tests[0] if len(tests) == 1 else ast.BoolOp(op=ast.And(), values=tests)
+                        chain = [ast.If(test=test, body=[ast.Assign(targets=[copy.deepcopy(s.targets[0])], value=inst(ge.elt, vals), lineno=s.lineno)],
+                                        orelse=chain)]
+                    self.changes += 1
+                    return [ast.fix_missing_locations(ast.copy_location(chain[0], s))]
         # U1 unroll
         if isinstance(s, ast.For) and isinstance(s.target, ast.Name) and not s.orelse and isinstance(s.iter, (ast.Tuple, ast.List)) \
                 and 1 <= len(s.iter.elts) <= 8 and all(isinstance(e, _SIMPLE_ELT) for e in s.iter.elts) \
